@@ -49,7 +49,7 @@ TECHNIQUE = "generated emission sites in a simulated design, python model of tri
 RULE = (
     "case = 1-5 emission sites picked from a fixed pool of 7 @event classes (int/bool/IntEnum/Enum dynamic fields, "
     "int/str/Enum statics with and without defaults, statics interleaved with dynamics), each with field values of "
-    "generated width/signedness (signal, expression, python constant, enum-shaped signal), a 1-3 bit or omitted "
+    "generated width (1-12 bits, sometimes 16-80) / signedness (signal, expression, python constant, enum-shaped signal), a 1-3 bit or omitted "
     "`when`, emit/top_emit, placed under generated module contexts (If/Else/Elif/Switch, transaction body, method "
     "body); metadata; a 6-30 cycle history of condition, request, trigger and field values.  Checked: schema, raw log "
     "== model, decoded events (incl. field types), save/load, EventLogWriter, EventLogReader, GeneratedEvLogSampler "
@@ -184,7 +184,9 @@ def dyn_field(draw, typ):
         kind = draw(st.sampled_from(["sig", "sig", "sig", "plus1", "const"]))
         if kind == "const":
             return {"kind": kind, "val": draw(st.integers(-20, 100))}
-        return {"kind": kind, "w": draw(st.integers(1, 12)), "signed": draw(st.booleans())}
+        # mostly narrow; sometimes as wide as a data bus (beyond 32 and beyond the 53 bits a double holds exactly)
+        w = draw(st.one_of(st.integers(1, 12), st.integers(1, 12), st.integers(1, 12), st.sampled_from([16, 32, 53, 54, 64, 65, 80])))
+        return {"kind": kind, "w": w, "signed": draw(st.booleans())}
     if typ is bool:
         kind = draw(st.sampled_from(["sig", "sig", "sig", "const"]))
         if kind == "const":
@@ -299,6 +301,8 @@ def dyn_value(fd, typ, raw):
     if typ not in (int, bool):
         v = list(typ)[raw % len(list(typ))].value
         return v, v
+    if fd["w"] > 14:  # the drawn raw value has 14 bits: spread it over the whole width (deterministically)
+        raw = (raw * 0x9E3779B97F4A7C15F39CC0605CEDC8341082276BF3A27251) >> 7
     v = obs.to_signed(raw, fd["w"], fd["signed"])
     return (v, v + 1) if k == "plus1" else (v, v)
 
